@@ -154,7 +154,7 @@ def program(spec, pname, tier, cap):
 def build(tier, seed):
     rng = mk_rng(seed, "C15")
     cap = 10 if tier == "quick" else 14
-    specs = pivot() + random_specs(rng, 2 if tier == "quick" else 12)
+    specs = pivot() + random_specs(rng, 6 if tier == "quick" else 20)
     programs = [program(s, "p%03d" % i, tier, cap) for i, s in enumerate(specs)]
     return {
         "programs": programs,
